@@ -204,16 +204,18 @@ class FactDB:
         """The rules refer to the wrappers' single storage member as `data` (and to a few bookkeeping members by name, see ROLES).
         When the source calls one of them something else, every declaration, member expression, reference and member initialiser
         that resolves (by declaration id) to that member is presented under the canonical name."""
-        wrappers = ("rlbox::tainted", "rlbox::tainted_volatile", "rlbox::tainted_opaque")
+        wrappers = {"rlbox::tainted": self.STORAGE, "rlbox::tainted_volatile": self.STORAGE, "rlbox::tainted_opaque": self.STORAGE,
+                    "rlbox::tainted_boolean_hint": "val", "rlbox::tainted_int_hint": "val"}
         ren = {}  # decl id -> (old, new)
         names = set()
         for r in self.records:
             if r["n"] in wrappers and len(r.get("fields") or []) == 1 and not r.get("explicit_spec"):
                 fl = r["fields"][0]
                 if "d" in fl:
-                    names.add(fl["n"])
-                    if fl["n"] != self.STORAGE:
-                        ren[fl["d"]] = (fl["n"], self.STORAGE)
+                    if wrappers[r["n"]] == self.STORAGE:
+                        names.add(fl["n"])
+                    if fl["n"] != wrappers[r["n"]]:
+                        ren[fl["d"]] = (fl["n"], wrappers[r["n"]])
             for rec, kind, pred, canon in self.ROLES:
                 if r["n"] != rec:
                     continue
